@@ -29,6 +29,12 @@ def main():
         if a.prop in ("C01", "C02"):
             import pducheck
             return pducheck.run(a.prop, a.tier)
+        if a.prop in ("C03", "C06", "C07", "C11"):
+            import framingcheck
+            return framingcheck.run(a.prop, a.tier)
+        if a.prop == "C20":
+            import meicheck
+            return meicheck.run(a.prop, a.tier)
         print("unknown property %s" % a.prop)
         return 2
     except MachineryError as e:
